@@ -344,6 +344,43 @@ func forLoopsRuleSSA(r *Run) {
 	for _, h := range order {
 		sums[h] = &iterSummary{}
 	}
+	// a return out of one of the element loops with an error made on the spot (not the error of the block): the loop
+	// gives up for a reason of its own - a cap on the number of values an iterator may yield - and does not "render
+	// its body once per element ... until exhausted". Decided on the blocks (the test `i >= max` is false for the
+	// one iteration the paths walk, so no path takes it).
+	for _, cand := range order {
+		body := loopBodyOf(cand)
+		for _, b := range fn.Blocks {
+			if body[b] || len(b.Instrs) == 0 {
+				continue
+			}
+			ret, isRet := b.Instrs[len(b.Instrs)-1].(*ssa.Return)
+			if !isRet || len(ret.Results) != 2 {
+				continue
+			}
+			fromBody := false
+			for _, pr := range b.Preds {
+				if body[pr] {
+					fromBody = true
+				}
+			}
+			if !fromBody {
+				continue
+			}
+			errV := ret.Results[1]
+			// (with a defer in the function the results are returned through cells: what this block stores there)
+			if ld, isLd := errV.(*ssa.UnOp); isLd && ld.Op == token.MUL {
+				for _, ins := range b.Instrs {
+					if st, isSt := ins.(*ssa.Store); isSt && st.Addr == ld.X {
+						errV = st.Val
+					}
+				}
+			}
+			if c, isCall := errV.(*ssa.Call); isCall && c.Block() == b && sums[cand] != nil {
+				sums[cand].bad = append(sums[cand].bad, "the loop is left with an error of its own ("+calleeLabel(c)+"): the elements that remain are never visited")
+			}
+		}
+	}
 	// the accumulator when nothing ran: result of a success path without any block evaluation
 	for _, p := range paths {
 		if p.end != "return" || len(p.results) != 2 {
